@@ -32,6 +32,37 @@ struct BpmScenario {
     tie: bool,
 }
 
+/// The most common beat length in exact arithmetic (times in units of 0.0001 ms), section rule of src/model/beatmap/bpm.rs: the
+/// first section starts at 0, a section counts if it starts at or before the last object, ties go to the first appearance.
+/// Returns (beat length, whether the winner is strictly ahead of every other candidate).
+fn bpm_oracle(tps: &[(i128, i64)], last: i128) -> (i64, bool) {
+    let mut totals: Vec<(i64, i128)> = Vec::new();
+    let mut add = |bl: i64, curr: i128, next: i128| {
+        let k = match totals.iter().position(|(b, _)| *b == bl) {
+            Some(k) => k,
+            None => { totals.push((bl, 0)); totals.len() - 1 }
+        };
+        if curr <= last {
+            totals[k].1 += next - curr;
+        }
+    };
+    match tps {
+        [] => {}
+        [only] => add(only.1, 0, last),
+        [first, next, ..] => add(first.1, 0, next.0),
+    }
+    for k in 1..tps.len().saturating_sub(1) {
+        add(tps[k].1, tps[k].0, tps[k + 1].0);
+    }
+    if tps.len() >= 2 {
+        let l = tps[tps.len() - 1];
+        add(l.1, l.0, last);
+    }
+    let Some(best) = totals.iter().map(|(_, t)| *t).max() else { return (0, true) };
+    let winners = totals.iter().filter(|(_, t)| *t == best).count();
+    (totals.iter().find(|(_, t)| *t == best).map_or(0, |(b, _)| *b), winners == 1)
+}
+
 /// `bpm-replay <scenarios.ndjson> <out.json>`
 pub fn bpm_main(args: &[String]) -> i32 {
     silence_panics();
@@ -54,6 +85,42 @@ pub fn bpm_main(args: &[String]) -> i32 {
             let got = map.bpm();
             if got != want {
                 return Some(json!({"what": "bpm", "tie": sc.tie, "expected": want, "observed": got, "text": s, "scenario_index": i}));
+            }
+        }
+        // the harness-side oracle (exact integers, units of 0.0001 ms) must agree with the model on the scenario as it is ...
+        let exact: Vec<(i128, i64)> = sc.tps.iter().map(|tp| (i128::from(tp.t) * 10_000, tp.bl)).collect();
+        let (oracle, _) = bpm_oracle(&exact, i128::from(sc.last) * 10_000);
+        if oracle != sc.chosen {
+            return Some(json!({"what": "machinery: bpm oracle", "expected": sc.chosen, "observed": oracle, "text": s}));
+        }
+        // ... and then decides the NEAR ties: the k-th timing point is moved by 0.0006 k ms, the last object by a little more, so
+        // that durations the model has equal now differ by a fraction of a microsecond. The most common beat length is still the
+        // one with the larger sum (no tolerance), and the answer is the same on every call.
+        if sc.tps.len() >= 2 {
+            let n = sc.tps.len() as i128;
+            let moved: Vec<(i128, i64)> = exact.iter().enumerate().map(|(k, (t, bl))| (*t + 6 * k as i128, *bl)).collect();
+            let last = i128::from(sc.last) * 10_000 + 6 * (n - 1) + 12;
+            let fmt = |v: i128| format!("{}{}.{:04}", if v < 0 { "-" } else { "" }, v.abs() / 10_000, v.abs() % 10_000);
+            let mut s2 = String::from("osu file format v14\n\n[TimingPoints]\n");
+            for (t, bl) in &moved {
+                let _ = writeln!(s2, "{},{},4,2,0,100,1,0", fmt(*t), bl);
+            }
+            let _ = writeln!(s2, "\n[HitObjects]\n256,192,{},1,0", fmt(last));
+            if let Ok(map2) = Beatmap::from_bytes(s2.as_bytes()) {
+                if map2.timing_points.len() == sc.tps.len() {
+                    let (chosen2, clear) = bpm_oracle(&moved, last);
+                    let first = map2.bpm();
+                    for _ in 0..12 {
+                        let again = map2.bpm();
+                        if again.to_bits() != first.to_bits() {
+                            return Some(json!({"what": "bpm differs between calls", "tie": sc.tie, "expected": first, "observed": again, "text": s2, "scenario_index": i}));
+                        }
+                    }
+                    let want2 = if chosen2 == 0 { f64::INFINITY } else { 60_000.0 / chosen2 as f64 };
+                    if clear && first != want2 {
+                        return Some(json!({"what": "bpm (near tie)", "tie": sc.tie, "expected": want2, "observed": first, "text": s2, "scenario_index": i}));
+                    }
+                }
             }
         }
         None
